@@ -263,7 +263,11 @@ def build_harness(timeout=1500):
     return os.path.join(TARGET, "debug"), out
 
 
-def run_lines(exe, lines, jobs=JOBS, timeout=3000, args=()):
+class NonTermination(RuntimeError):
+    """a harness / judge process did not finish within its (generous) time limit"""
+
+
+def run_lines(exe, lines, jobs=JOBS, timeout=900, args=()):
     """Feeds `lines` (list[str]) to `exe` over stdin, sharded round-robin over `jobs` processes (so that
     runs of expensive neighbouring lines are spread out); returns the output lines in input order."""
     if not lines:
@@ -272,8 +276,14 @@ def run_lines(exe, lines, jobs=JOBS, timeout=3000, args=()):
     chunks = [lines[i::n] for i in range(n)]
 
     def one(chunk):
-        p = subprocess.run([exe] + list(args), input=("\n".join(chunk) + "\n").encode(), stdout=subprocess.PIPE,
-                           stderr=subprocess.PIPE, timeout=timeout)
+        try:
+            p = subprocess.run([exe] + list(args), input=("\n".join(chunk) + "\n").encode(), stdout=subprocess.PIPE,
+                               stderr=subprocess.PIPE, timeout=timeout)
+        except subprocess.TimeoutExpired as e:
+            done = (e.stdout or b"").count(b"\n")
+            raise NonTermination("%s did not finish %d input lines within %d s (the whole check normally takes a few minutes); it "
+                                 "stopped producing output at input line %d of its shard: %s" % (
+                                     os.path.basename(exe), len(chunk), timeout, done, chunk[done][:2000] if done < len(chunk) else ""))
         out = p.stdout.decode().split("\n")
         if out and out[-1] == "":
             out.pop()
